@@ -663,7 +663,10 @@ func (m *monitor) auditStores(n *simNode, ctx string) {
 	}
 	if base > 1 {
 		e.Count("probe.audit_pruned_store")
-		if bs.LoadBlock(base-1) != nil || bs.LoadBlockMeta(base-1) != nil {
+		left := bs.LoadBlock(base-1) != nil || bs.LoadBlockMeta(base-1) != nil
+		if left && base <= n.leakFloor {
+			e.Count("probe.garbage_below_base_after_interrupted_prune")
+		} else if left {
 			e.Fail("C18", "pruned-still-loadable", "%s: node %d: block %d is below the base %d but still loadable", ctx, n.idx, base-1, base)
 		}
 	}
